@@ -162,6 +162,11 @@ func (s *v11Source) block() *dataBlock {
 		b.segments[ch] = DataSegment{rawData: d, framesPerSample: 1, firstFrameIndex: FrameIndex(s.frame), firstTime: ft, framePeriod: vPeriod}
 	}
 	b.nSamp = n
+	if s.pulses {
+		// external triggers as the hardware sources report them (two per block), so that the side file, the
+		// EXTERNALTRIGGER message and the raw-block archive handle non-empty lists
+		b.externalTriggerRowcounts = []int64{int64(s.frame)*4 + 1, int64(s.frame)*4 + 9}
+	}
 	s.frame += n
 	return b
 }
